@@ -127,20 +127,25 @@ var intLooking = []string{"0", "1", "-1", "12", "13", "127", "128", "-128", "-12
 // Elem generates element/field/member/value contents.
 func Elem() *rapid.Generator[[]byte] {
 	return rapid.Custom(func(t *rapid.T) []byte {
-		switch rapid.IntRange(0, 9).Draw(t, "ek") {
-		case 0, 1:
+		switch rapid.IntRange(0, 40).Draw(t, "ek") {
+		case 40:
+			// long string whose tail repeats its head: LZF back-references across more than 4096 bytes
+			head := patBytes(rapid.Uint32().Draw(t, "farseed"), rapid.IntRange(40, 300).Draw(t, "farhead"))
+			gap := patBytes(rapid.Uint32().Draw(t, "gapseed"), rapid.SampledFrom([]int{4000, 4096, 4200, 6000, 8100, 8191, 8300}).Draw(t, "fargap"))
+			return append(append(append([]byte{}, head...), gap...), head...)
+		case 0, 1, 10, 11, 20, 21, 30, 31:
 			return []byte(rapid.SampledFrom(intLooking).Draw(t, "intlike"))
-		case 2:
+		case 2, 12, 22, 32:
 			return []byte(strconv.FormatInt(rapid.Int64().Draw(t, "i64"), 10))
-		case 3:
+		case 3, 13, 23, 33:
 			return []byte(strconv.FormatInt(int64(rapid.IntRange(-70000, 70000).Draw(t, "ismall")), 10))
-		case 4:
+		case 4, 14, 24, 34:
 			// compressible
 			unit := rapid.SliceOfN(rapid.Byte(), 1, 4).Draw(t, "unit")
 			return bytes.Repeat(unit, rapid.IntRange(8, 120).Draw(t, "rep"))
-		case 5:
+		case 5, 15, 25, 35:
 			return []byte(rapid.StringMatching(`[a-z0-9:{}_-]{1,16}`).Draw(t, "word"))
-		case 6:
+		case 6, 16, 26, 36:
 			n := rapid.SampledFrom([]int{62, 63, 64, 65, 252, 253, 254, 255, 256, 300}).Draw(t, "blen")
 			c := rapid.Byte().Draw(t, "fill")
 			b := bytes.Repeat([]byte{c}, n)
@@ -761,4 +766,15 @@ func StreamEnc(t *rapid.T, labels map[string]bool) Enc {
 		}
 	}
 	return Enc{TStream, b, "stream", 9}
+}
+
+// patBytes returns n deterministic pseudo-random bytes derived from seed.
+func patBytes(seed uint32, n int) []byte {
+	b := make([]byte, n)
+	x := seed*2654435761 + 12345
+	for i := range b {
+		x = x*1664525 + 1013904223
+		b[i] = byte(x >> 24)
+	}
+	return b
 }
